@@ -121,7 +121,43 @@ pub fn run_spaces(ctx: &Ctx, prop: &'static str, spaces: &[Space]) -> JobOut {
         out.stats.add(&format!("nodes[{}]", sp.label), out.stats.states);
         out
     });
-    merge_jobs(outs)
+    let mut all = merge_jobs(outs);
+    // second pass: the same histories (to a reduced depth) with the instance serialized + restored, or
+    // replaced by its clone, right before the last operation - the formulas hold for an indicator
+    // whatever way it was obtained
+    if !all.failed() {
+        let cap = if ctx.tier_thorough { 5 } else { 4 };
+        let mut jobs2: Vec<(usize, usize, Via)> = vec![];
+        for (i, a) in &jobs {
+            if spaces[*i].label.starts_with("near-max") || spaces[*i].label == "huge period" {
+                continue;
+            }
+            jobs2.push((*i, *a, Via::Serde));
+            jobs2.push((*i, *a, Via::Clone));
+        }
+        let outs = par_run(ctx, &jobs2, |_, (i, a, via)| {
+            let sp = &spaces[*i];
+            let mut out = JobOut::default();
+            seq_job_via(ctx, prop, &sp.cfg, &sp.alphabet, *a, sp.depth.min(cap), *via, &mut out, |ops, last, out| {
+                oracle_node(prop, &sp.cfg, ops, last, out);
+            });
+            out.stats.add("nodes[via serde/clone]", out.stats.states);
+            out
+        });
+        all.stats.merge(merge_jobs_stats_only(&outs));
+        for o in outs {
+            all.violations.extend(o.violations);
+        }
+    }
+    all
+}
+
+fn merge_jobs_stats_only(outs: &[JobOut]) -> Stats {
+    let mut st = Stats::default();
+    for o in outs {
+        st.merge(o.stats.clone());
+    }
+    st
 }
 
 /// Deviation-bounded family: a default stream with k deviations.
